@@ -1,10 +1,232 @@
-// Package c05: harness for property C05 (stub until built).
+// Package c05: swap pricing vs the exact curve — swap-heavy histories on the real
+// x/liquiditypool, paired quotes (monotonicity), round trips, and direct calls of the four
+// per-bucket step functions.
 package c05
 
-import "fmt"
+import (
+	"fmt"
+	"math/big"
 
-// Run generates n cases from seed, runs them on the real application and writes
-// cases_*.v and stats.json into outDir.
+	sdkmath "cosmossdk.io/math"
+	sdk "github.com/cosmos/cosmos-sdk/types"
+
+	lpkeeper "github.com/sunriselayer/sunrise/x/liquiditypool/keeper"
+
+	"verifharness/amm"
+	"verifharness/emit"
+)
+
+func legacy(r *big.Int) sdkmath.LegacyDec { return sdkmath.LegacyNewDecFromBigIntWithPrec(r, 18) }
+
+func bucketCase(r *emit.Rand) (string, map[string]any) {
+	b4q, exactIn := r.Bool(), r.Bool()
+	p18 := new(big.Int).Exp(big.NewInt(10), big.NewInt(18), nil)
+	fee := emit.Pick(r, "0", "100000000000000", "3000000000000000", "10000000000000000", "300000000000000000", "999999999999999999")
+	feeR, _ := new(big.Int).SetString(fee, 10)
+	// sqrt price around 10^k, k in [-6, 6]
+	sp := new(big.Int).Mul(r.LogUniform(7), new(big.Int).Exp(big.NewInt(10), big.NewInt(int64(12+r.Intn(7))), nil))
+	// target: a relative move of 10^-j in the trade direction (sometimes equal, sometimes 1 ulp)
+	var delta *big.Int
+	switch r.Intn(6) {
+	case 0:
+		delta = big.NewInt(0)
+	case 1:
+		delta = big.NewInt(1)
+	default:
+		delta = new(big.Int).Div(sp, new(big.Int).Exp(big.NewInt(10), big.NewInt(int64(1+r.Intn(8))), nil))
+	}
+	target := new(big.Int)
+	if b4q {
+		target.Sub(sp, delta)
+		if target.Sign() <= 0 {
+			target.SetInt64(1)
+		}
+	} else {
+		target.Add(sp, delta)
+	}
+	var liq *big.Int
+	switch r.Intn(8) {
+	case 0:
+		liq = big.NewInt(0)
+	case 1:
+		liq = big.NewInt(int64(1 + r.Intn(1000)))
+	default:
+		liq = new(big.Int).Mul(r.LogUniform(30), p18)
+		liq.Add(liq, r.Big(p18))
+	}
+	rem := new(big.Int).Mul(r.LogUniform(28), p18)
+	if r.Chance(1, 6) {
+		rem.Add(rem, r.Big(p18)) // non-integer remainder (later loop iterations)
+	}
+	h := lpkeeper.New(b4q, legacy(target), legacy(feeR))
+	obs := "None"
+	info := map[string]any{"kind": "bucket", "b4q": b4q, "exact_in": exactIn, "fee": fee, "sp": sp.String(), "target": target.String(), "liq": liq.String(), "rem": rem.String()}
+	func() {
+		defer func() {
+			if rec := recover(); rec != nil {
+				info["panic"] = fmt.Sprint(rec)
+			}
+		}()
+		var a, b, c, d sdkmath.LegacyDec
+		if exactIn {
+			a, b, c, d = h.ComputeSwapWithinBucketOutGivenIn(legacy(sp), legacy(target), legacy(liq), legacy(rem))
+		} else {
+			a, b, c, d = h.ComputeSwapWithinBucketInGivenOut(legacy(sp), legacy(target), legacy(liq), legacy(rem))
+		}
+		obs = fmt.Sprintf("(Some (%s, %s, %s, %s))", emit.Z(a.BigInt()), emit.Z(b.BigInt()), emit.Z(c.BigInt()), emit.Z(d.BigInt()))
+		info["next"], info["spec"], info["other"], info["fee_charge"] = a.String(), b.String(), c.String(), d.String()
+	}()
+	return fmt.Sprintf("C5Bucket %s %s %s %s %s %s %s %s", emit.Bool(b4q), emit.Bool(exactIn), emit.Z(feeR), emit.Z(sp), emit.Z(target), emit.Z(liq), emit.Z(rem), obs), info
+}
+
 func Run(seed int64, n int, outDir string) error {
-	return fmt.Errorf("c05: harness not built yet")
+	w := amm.NewWorld(seed)
+	defer w.H.Close()
+	if err := w.SetupPools(4); err != nil {
+		return err
+	}
+	st := emit.NewStats("C05", seed, "swap-heavy histories over 4 pools (C5Step: pre-state, op, result, post-state), paired quotes on one state (C5Mono), there-and-back swaps (C5Round), and direct calls of the four ComputeSwapWithinBucket* functions on generated (price, target, liquidity, remaining, fee) incl. zero liquidity (C5Bucket); non-trivial = a swap that moved the price with a non-zero rounded-off remainder (distinct by pool and resulting price) or a bucket call with a distinct result")
+	cf := &emit.CasesFile{Import: "Amm.C05Check", Runner: "run", Type: "c05_case"}
+	// pure bucket steps: cheap on both sides, go in their own shards
+	bf := &emit.CasesFile{Import: "Amm.C05Check", Runner: "run", Type: "c05_case"}
+	nb := n * 6
+	for i := 0; i < nb; i++ {
+		term, info := bucketCase(w.R)
+		bf.Add(term)
+		st.Info(info)
+		st.Evaluations++
+		st.Count("bucket")
+		if _, bad := info["panic"]; bad {
+			st.Count("bucket:panic")
+		} else {
+			st.Nontriv("bucket/" + fmt.Sprint(info["next"], info["spec"]))
+		}
+	}
+	ctx := w.H.Ctx()
+	add := func(term string, info map[string]any, kind string, err error) {
+		cf.Add(term)
+		if err != nil {
+			info["err"] = err.Error()
+			st.Count(kind + ":err")
+		} else {
+			st.Count(kind + ":ok")
+			st.Sample(info)
+		}
+		st.Info(info)
+		st.Evaluations++
+	}
+	for i := 0; i < n; i++ {
+		p := w.Pools[w.R.Intn(len(w.Pools))]
+		o := w.GenOp(ctx, p)
+		// bias towards swaps once the pool has positions
+		if o.Kind != "swap" && o.Kind != "create" && w.R.Chance(2, 3) {
+			o = amm.Op{Kind: "swap", Sender: w.R.Intn(3), ExactIn: w.R.Chance(3, 5), DenomIn: w.R.Intn(2), Amount: w.R.LogUniform(20), Tag: "swap"}
+		}
+		pre, _, _ := w.K.GetPool(ctx, p.ID)
+		term, err := w.Step(ctx, p, o, false)
+		info := o.Info()
+		info["pool"] = p.ID
+		add("C5Step "+term, info, o.Kind, err)
+		post, _, _ := w.K.GetPool(ctx, p.ID)
+		if o.Kind == "swap" && err == nil && pre.CurrentSqrtPrice != post.CurrentSqrtPrice {
+			st.Nontriv(fmt.Sprintf("swap/%d/%s", p.ID, post.CurrentSqrtPrice))
+		}
+		if post.CurrentSqrtPrice == "" || len(w.K.GetAllInitializedTicksForPool(ctx, p.ID)) == 0 {
+			continue
+		}
+		// paired quotes on the current state
+		if w.R.Chance(1, 3) {
+			ei := w.R.Bool()
+			di := w.R.Intn(2)
+			x1 := w.R.LogUniform(18)
+			x2 := new(big.Int).Add(x1, w.R.LogUniform(1+w.R.Intn(18)))
+			user := w.H.Accts[0].Addr
+			state := w.Dump(ctx, p, user)
+			q := func(x *big.Int) *big.Int {
+				pool, _, _ := w.K.GetPool(ctx, p.ID)
+				var v sdkmath.Int
+				var e error
+				func() {
+					defer func() {
+						if rec := recover(); rec != nil {
+							e = fmt.Errorf("panic: %v", rec)
+						}
+					}()
+					if ei {
+						v, e = w.K.CalculateResultExactAmountIn(ctx, pool, sdk.NewCoin(p.Denoms[di], sdkmath.NewIntFromBigInt(x)), p.Denoms[1-di], true)
+					} else {
+						v, e = w.K.CalculateResultExactAmountOut(ctx, pool, sdk.NewCoin(p.Denoms[1-di], sdkmath.NewIntFromBigInt(x)), p.Denoms[di], true)
+					}
+				}()
+				if e != nil {
+					return big.NewInt(-1)
+				}
+				return v.BigInt()
+			}
+			r1, r2 := q(x1), q(x2)
+			info := map[string]any{"kind": "mono", "pool": p.ID, "exact_in": ei, "denom_in": di, "x1": x1.String(), "r1": r1.String(), "x2": x2.String(), "r2": r2.String()}
+			add(fmt.Sprintf("C5Mono %s %s %d %s %s %s %s", state, emit.Bool(ei), di, emit.Z(x1), emit.Z(r1), emit.Z(x2), emit.Z(r2)), info, "mono", nil)
+			if r1.Sign() > 0 && r2.Sign() > 0 {
+				st.Nontriv(fmt.Sprintf("mono/%d/%s/%s", p.ID, r1, r2))
+			}
+		}
+		// there and back, in a discarded cache context
+		if w.R.Chance(1, 4) {
+			c, _ := ctx.CacheContext()
+			di := w.R.Intn(2)
+			x := w.R.LogUniform(18)
+			user := w.H.Accts[0]
+			state := w.Dump(c, p, user.Addr)
+			y, xb := big.NewInt(-1), big.NewInt(-1)
+			pool, _, _ := w.K.GetPool(c, p.ID)
+			func() {
+				defer func() { recover() }()
+				out, e := w.K.SwapExactAmountIn(c, user.Addr, pool, sdk.NewCoin(p.Denoms[di], sdkmath.NewIntFromBigInt(x)), p.Denoms[1-di], true)
+				if e != nil {
+					return
+				}
+				y = out.BigInt()
+				pool2, _, _ := w.K.GetPool(c, p.ID)
+				back, e := w.K.SwapExactAmountIn(c, user.Addr, pool2, sdk.NewCoin(p.Denoms[1-di], out), p.Denoms[di], true)
+				if e != nil {
+					return
+				}
+				xb = back.BigInt()
+			}()
+			info := map[string]any{"kind": "round", "pool": p.ID, "denom_in": di, "x": x.String(), "y": y.String(), "x_back": xb.String()}
+			add(fmt.Sprintf("C5Round %s %d %s %s %s", state, di, emit.Z(x), emit.Z(y), emit.Z(xb)), info, "round", nil)
+			if xb.Sign() > 0 {
+				st.Nontriv(fmt.Sprintf("round/%d/%s/%s", p.ID, x, xb))
+			}
+		}
+		if w.R.Chance(1, 25) {
+			if _, err := w.H.NextBlock(1e9); err != nil {
+				return fmt.Errorf("block failed: %w", err)
+			}
+			ctx = w.H.Ctx()
+		}
+	}
+	// the two case files share one index space: bucket cases first
+	all := &emit.CasesFile{Import: "Amm.C05Check", Runner: "run", Type: "c05_case"}
+	all.Cases = append(all.Cases, bf.Cases...)
+	nbk := len(bf.Cases)
+	all.Cases = append(all.Cases, cf.Cases...)
+	// write bucket shards (large) and step shards (small) with a common numbering
+	bfOnly := &emit.CasesFile{Import: all.Import, Runner: all.Runner, Type: all.Type, Cases: all.Cases[:nbk]}
+	if _, err := bfOnly.Write(outDir, "casesb", 300); err != nil {
+		return err
+	}
+	if err := writeOffset(all, nbk, outDir); err != nil {
+		return err
+	}
+	// case_info order: bucket infos were added first, then steps: matches the numbering
+	return st.Write(outDir)
+}
+
+// writeOffset writes cases[nbk:] as shards of 30 whose base index continues after the bucket cases.
+func writeOffset(all *emit.CasesFile, nbk int, outDir string) error {
+	rest := &emit.CasesFile{Import: all.Import, Runner: all.Runner, Type: all.Type, Cases: all.Cases[nbk:]}
+	rest.Base = nbk
+	_, err := rest.Write(outDir, "cases", 10)
+	return err
 }
